@@ -11,7 +11,7 @@ FILE = "magicbot/magicrobot.py"
 PROPS = ["C05", "C06", "C07", "C10", "C11"]
 MR, COMP = "MagicRobot", "Component"
 
-GLOBALS = {"g_seq": "Int", "g_fms": "Bool", "g_faults": "Int", "g_reports": "Int"}
+GLOBALS = {"g_seq": "Int", "g_fms": "Bool", "g_faults": "Int", "g_reports": "Int", "g_robot_init_failed": "Bool"}
 
 MACROS = {
     "COMPS(r)": "r._components",
@@ -336,6 +336,7 @@ CONTRACTS.update({
                 "self.g_mode_cnt == old(self.g_mode_cnt) + delay.g_k and self.g_ep_cnt == old(self.g_ep_cnt) + delay.g_k and delay._notifier is None and " + _MODE_FIRST,
             "C05.T3 /robot/mode was 'teleop' throughout": "self._MagicRobot__nt_put_mode.g_value == 'teleop'",
             "C06.T6 on entering teleop every on_enable ran (once) before teleopInit; on leaving every on_disable ran (once) after everything else": _EN_ONCE + " and " + _DIS_ONCE_AFTER,
+            "serial monotone": "g_seq >= old(g_seq)",
         }, **G2),
         "ensures_raise": G1,
     },
@@ -355,6 +356,7 @@ CONTRACTS.update({
             "C05.D2 no component's execute() runs in disabled mode": _NO_EXEC + " and self.g_ep_cnt == old(self.g_ep_cnt)",
             "C05.D3 /robot/mode was 'disabled' throughout": "self._MagicRobot__nt_put_mode.g_value == 'disabled'",
             "C06.D4 on entering disabled every on_disable ran once, before disabledInit": _DIS_ONCE_BEFORE,
+            "serial monotone": "g_seq >= old(g_seq)",
         }, **G2),
         "ensures_raise": G1,
     },
@@ -371,6 +373,7 @@ CONTRACTS.update({
             "C05.X1 per test iteration testPeriodic, the feedbacks and robotPeriodic exactly once; one wait per iteration": "self.g_mode_cnt == old(self.g_mode_cnt) + delay.g_k and self.g_dp_cnt == old(self.g_dp_cnt) + delay.g_k and delay._notifier is None",
             "C05.X2 no component's execute() runs in test mode": _NO_EXEC + " and self.g_ep_cnt == old(self.g_ep_cnt)",
             "C05.X3 /robot/mode was 'test' throughout": "self._MagicRobot__nt_put_mode.g_value == 'test'",
+            "serial monotone": "g_seq >= old(g_seq)",
         }, **G2),
         "ensures_raise": G1,
     },
@@ -389,10 +392,41 @@ CONTRACTS.update({
             "C05.A4 /robot/mode was 'auto' throughout": "self._MagicRobot__nt_put_mode.g_value == 'auto'",
             "C06.A5 on entering autonomous every on_enable ran (once) before autonomousInit; on leaving every on_disable ran (once) after it": _EN_ONCE + " and " + _DIS_ONCE_AFTER,
             "C14.A6 the selected mode is the dashboard string's mode if it names one, else the chooser selection": "self._automodes.g_chosen is (self._automodes.modes[unwrap(g_dash)] if (g_dash is not None and has(self._automodes.modes, unwrap(g_dash))) else g_choice)",
+            "C14.A7 when the period ends every offered autonomous mode is idle again (the next period may start)": "forall(m, Ref_AutoMode, implies(m is g_choice or exists_mode(self._automodes, m), m.g_state == 0))",
+            "serial monotone": "g_seq >= old(g_seq)",
         }, **G2),
         "ensures_raise": G1,
     },
 })
+
+# ---------------------------------------------------------------- the mode-switching loop
+_IDLE = "forall(m, Ref_AutoMode, implies(m is g_choice or exists_mode(self._automodes, m), m.g_state == 0))"
+CONTRACTS.update({
+    "MagicRobot.getControlState": {"kind": "external", "receivers": [MR], "params": {}, "returns": "(Bool,Bool,Bool)", "modifies": ["g_ds_enabled", "g_ds_auto", "g_ds_test"],
+                                   "ensures": {"the driver station's current (enabled, autonomous, test) flags": "result[0] == g_ds_enabled and result[1] == g_ds_auto and result[2] == g_ds_test"},
+                                   "note": "wpilib.RobotBase.getControlState(): refreshes and returns the control word (arbitrary input)"},
+    f"{MR}.robotInit": {"receivers": [MR], "params": {}, "raises": True, "verify": False, "modifies": ["g_robot_init_failed", f"{MR}._MagicRobot__done[*]"] + _LOOP_MOD + ["AutonomousModeSelector.active_mode[*]", "AutonomousModeSelector.g_chosen[*]", "AutonomousModeSelector.g_iters[*]", "IterFn.g_cnt[*]", "IterFn.g_last[*]", "IterFn.robot[*]", "IterFn.kind[*]",
+                                 "ExcHandler.robot[*]", "ExcHandler.kind[*]", "wpilib.Timer.g_last[*]",
+                                 "AutoMode.g_state[*]", "AutoMode.g_en_cnt[*]", "AutoMode.g_it_cnt[*]", "AutoMode.g_dis_cnt[*]", "AutoMode.g_last_t[*]", "AutoMode.g_last[*]"],
+                        "ensures": {"start-up succeeded": "not g_robot_init_failed", "the autonomous modes found at start-up are idle": _IDLE, "no fault without the FMS": "implies(not g_fms, g_faults == old(g_faults)) and g_faults >= old(g_faults)", "serial monotone": "g_seq >= old(g_seq)"},
+                        "ensures_raise": {"start-up failed": "g_robot_init_failed"},
+                        "note": "robotInit: createObjects (user), AutonomousModeSelector(...) (contracts/seldisc.py), _create_components (contracts/robotinit.py), NT bindings; here only its effect on the mode loop's state is assumed"},
+    f"{MR}.startCompetition": {
+        "receivers": [MR], "params": {}, "raises": True, "ghost_entry": {"g_robot_init_failed": "False"}, "modifies": ["g_robot_init_failed", f"{MR}._MagicRobot__done[*]"] + _LOOP_MOD + ["AutonomousModeSelector.active_mode[*]", "AutonomousModeSelector.g_chosen[*]", "AutonomousModeSelector.g_iters[*]", "IterFn.g_cnt[*]", "IterFn.g_last[*]", "IterFn.robot[*]", "IterFn.kind[*]",
+                                 "ExcHandler.robot[*]", "ExcHandler.kind[*]", "wpilib.Timer.g_last[*]",
+                                 "AutoMode.g_state[*]", "AutoMode.g_en_cnt[*]", "AutoMode.g_it_cnt[*]", "AutoMode.g_dis_cnt[*]", "AutoMode.g_last_t[*]", "AutoMode.g_last[*]"],
+        "loops": {0: {"inv": {"between two modes every offered autonomous mode is idle (the period was closed)": _IDLE, "serial monotone": "g_seq >= old(g_seq)", "without FMS no fault so far": _NOFAULT}}},
+        "drop_callee_ensures": {f"{MR}._operatorControl": ["C05.T1"], f"{MR}._disabled": ["C05.D1"], f"{MR}._test": ["C05.X1"]},     # they speak about the callee's local NotifierDelay
+        "ensures": dict({"C06.Z2 the mode loop ends only after endCompetition() raised the exit flag": "self._MagicRobot__done"}, **G2),
+        "ensures_raise": {"C07.G3 with the FMS attached nothing but a failing start-up (robotInit: createObjects, injection, autonomous discovery) leaves the mode loop": "not g_fms or g_robot_init_failed"},
+    },
+})
+for _fn, _cond, _txt in (("_disabled", "not L_isEnabled", "the disabled loop is entered exactly when the driver station says disabled"),
+                         ("autonomous", "L_isEnabled and L_isAutonomous", "the autonomous period is entered exactly when the driver station says enabled and autonomous"),
+                         ("_test", "L_isEnabled and not L_isAutonomous and L_isTest", "the test loop is entered exactly when the driver station says enabled, not autonomous, test"),
+                         ("_operatorControl", "L_isEnabled and not L_isAutonomous and not L_isTest", "the teleop loop is entered exactly when the driver station says enabled and neither autonomous nor test")):
+    CONTRACTS[f"{MR}.{_fn}"].setdefault("site_asserts_in", {})[f"{MR}.startCompetition"] = {
+        f"C05.M1 (also C06: each mode function brackets its loop with on_enable/on_disable of every component) {_txt}": _cond + " and L_isEnabled == g_ds_enabled and L_isAutonomous == g_ds_auto and L_isTest == g_ds_test"}
 
 DYN_GETATTR = {"__dict__.update": "robot.dict_update"}
 NAMES = {"NotifierDelay": ("dotted", "NotifierDelay"), "SimpleWatchdog": ("dotted", "SimpleWatchdog")}
